@@ -217,6 +217,24 @@ func ZZ_C11_alias() {
 		rt.Assert(rt.BytesEq(hb[2+len(s0.bytes):], s0.bytes), "item-bytes:inside-a-list")
 		hb[rt.Choice("j", len(hb))] ^= x
 		zzSameSnap(zzSnapItem(it), s0, "list-bytes:element-unchanged")
+	case 16: // the decoder's input buffer, with items big enough for any size-dependent fast path (5000 characters / bytes)
+		posSel := rt.Choice("i", 7) // drawn first: also a path the engine cannot finish has it among its inputs
+		big := make([]byte, 5000)
+		for i := range big {
+			big[i] = byte('a' + i%26)
+		}
+		vals := make([]interface{}, 5000)
+		for i := range vals {
+			vals[i] = i % 251
+		}
+		in := ast.NewHSMSDataMessage("", st, fn, wb, "H<->E", ast.NewListNode(ast.NewASCIINode(string(big)), ast.NewBinaryNode(vals...)), sid, sys).ToBytes()
+		msg, ok := Parse(in)
+		rt.Assert(ok, "decode-ok")
+		d := msg.(*ast.DataMessage)
+		b0 := append([]byte{}, d.ToBytes()...)
+		pos := []int{5, 13, 20, 2500, 5019, 5030, len(in) - 1}[posSel]
+		in[pos] ^= x
+		rt.Assert(rt.BytesEq(d.ToBytes(), b0), "decoder-input-big:bytes")
 	case 13: // deriving from a list template (ellipsis anywhere, any repeat count) leaves the template as it was
 		shape := rt.Choice("shape", 4)
 		var tmpl ast.ItemNode
